@@ -64,6 +64,23 @@ Theorem C09_draw_from_flows : forall cs,
 Proof. exact ins_from_flows_spec. Qed.
 Print Assumptions C09_draw_from_flows.
 
+(* AugmentedFlowProposal._marginalise_augment (marginalise_augment=True): the points are repeated n_marg times consecutively
+   and the terms are reduced over consecutive blocks of n_marg, so the value returned for a point is the reduction over the
+   terms of THAT point's own augment draws - for every batch, every n_marg >= 1 and every reduction (logsumexp oracle) ... *)
+Theorem C09_marginalise_own_point : forall (X A B : Type) (reduce : list A -> B) (n : nat) (g : X -> list A) (l : list X),
+  0 < n -> (forall x, length (g x) = n) ->
+  marginalise reduce n (flat_map g l) = map (fun x => reduce (g x)) l.
+Proof. exact @marginalise_own_point. Qed.
+Print Assumptions C09_marginalise_own_point.
+
+(* ... and the transposed grouping (reshape(n_marg, -1) reduced along axis 0) is refuted: two points, two draws *)
+Theorem C09_marginalise_strided_refuted : exists (n : nat) (l : list nat),
+  let terms := flat_map (fun x => map (fun k => 10 * x + k) (seq 0 n)) l in
+  blocks n terms = map (fun x => map (fun k => 10 * x + k) (seq 0 n)) l /\
+  strided 0 n terms <> map (fun x => map (fun k => 10 * x + k) (seq 0 n)) l.
+Proof. exact strided_refuted. Qed.
+Print Assumptions C09_marginalise_strided_refuted.
+
 (* a flow pool has exactly the requested size when the loop ends *)
 Theorem C09_pool_size : forall sub strict minlq N bs pool k,
   flow_populate sub strict minlq N bs = Done (pool, k) -> length pool = N.
